@@ -113,14 +113,17 @@ func describeUDP(plans []udpPlan) string {
 }
 
 func runUDPBatch(t hx.TB, plans []udpPlan, round int) {
-	// A UDP association lives until its idle timeout (30 s, a constant of the server) has passed - also after the
-	// socket was closed. A long campaign therefore waits for earlier associations to go away before it starts new ones,
-	// or it would keep tens of thousands of them (and their buffers) alive at once.
-	for wait := 0; runtime.NumGoroutine() > 2500 && wait < 90; wait++ {
+	// A UDP association lives until its idle timeout (30 s, a constant of the server) has passed, and it can only end
+	// while the server loop is still there to hear of it (an association that expires after the socket was closed
+	// blocks for good on its notification - a leak at shutdown that none of the listed properties speaks about). So the
+	// socket of a batch stays open until its associations have expired, and a long campaign waits for earlier
+	// associations to go away before it starts new ones; it would otherwise keep tens of thousands of them, and their
+	// buffers, alive at once.
+	for wait := 0; runtime.NumGoroutine() > 6000 && wait < 90; wait++ {
 		time.Sleep(500 * time.Millisecond)
 	}
 	pc := buildUDPServer(t)
-	defer pc.Close()
+	defer time.AfterFunc(40*time.Second, func() { pc.Close() })
 	want := map[string][]byte{}
 	idx := map[string]int{}
 	var wg sync.WaitGroup
